@@ -55,6 +55,14 @@ func (e *Engine) newCtx(key string) *FuncCtx {
 		}
 		return true
 	})
+	// an "at call" clause that matches no call site would silently assert nothing
+	if c.contract != nil {
+		for _, cl := range c.contract.Clauses {
+			if cl.Kind == "at" && counts[cl.Name] < cl.Loop {
+				c.limit = fmt.Sprintf("'at call %s #%d' matches no call site (the function has %d such calls)", cl.Name, cl.Loop, counts[cl.Name])
+			}
+		}
+	}
 	// address-taken struct locals live in the heap
 	ast.Inspect(fd.Body, func(x ast.Node) bool {
 		switch s := x.(type) {
@@ -479,6 +487,9 @@ func (e *Engine) calleeKeyOf(ce *ast.CallExpr) string {
 		if fn, ok := e.info.Uses[f].(*types.Func); ok {
 			return e.fobjs[fn]
 		}
+		if b, ok := e.info.Uses[f].(*types.Builtin); ok {
+			return b.Name()
+		}
 	case *ast.SelectorExpr:
 		if id, ok := f.X.(*ast.Ident); ok {
 			if pn, ok := e.info.Uses[id].(*types.PkgName); ok {
@@ -507,13 +518,19 @@ func (c *FuncCtx) atCall(st *State, x *ast.CallExpr) {
 		return
 	}
 	key := c.eng.calleeKeyOf(x)
+	nth := 0
 	for _, cl := range c.contract.Clauses {
 		if cl.Kind == "at" && cl.Name == key && cl.Loop == n {
+			nth++
 			c.inAtCall = true
 			v := c.evalSpecAt(st, cl.Expr, x.Pos(), c.ghostEnv())
 			c.inAtCall = false
 			if v.S != tTrue {
-				c.oblige(st, "assert", fmt.Sprintf("assert@%s#%d", key, n), x.Pos(), v.S, cl.Tags, "at call "+key+": "+cl.Text)
+				name := fmt.Sprintf("assert@%s#%d", key, n)
+				if nth > 1 {
+					name += fmt.Sprintf(".%d", nth)
+				}
+				c.oblige(st, "assert", name, x.Pos(), v.S, cl.Tags, "at call "+key+": "+cl.Text)
 				st.assume(v.S)
 			}
 		}
